@@ -199,6 +199,10 @@ def post_conic_intersect(ctx, call):
     sep = min([X.proj_residual(p, q) for p, q in itertools.combinations(ref, 2)], default=1.0)
     tol_pt = 1e-6 if sep > 1e-3 else 2e-3
     tol_on = 1e-8 if sep > 1e-3 else 1e-5
+    # 3- and 4-fold contact: the roots of the pencil are only determined up to eps^(1/3) .. eps^(1/4) (times the conditioning of the coordinates)
+    big_cluster = max(sum(1 for q in ref if X.proj_residual(p, q) < 2e-2) for p in ref) >= 3
+    if big_cluster:
+        tol_pt, tol_on = 5e-2, 2e-3
     ok, why = True, ""
     if len(got) > 4:
         ok, why = False, f"{len(got)} points returned"
@@ -398,6 +402,16 @@ def g_conic_pairs(ctx, rng, i):
         for a, b in ((c1, c2), (c1, c3), (c3, c1)):
             try:
                 a.intersect(b)
+            except Exception:
+                pass
+        # osculating pairs: the pencil cubic has an exact triple root (3-fold and 4-fold contact), dyadic coefficients, integer images
+        par = np.array([[2, 0, 0], [0, 0, -1], [0, -1, 0]])  # y = x^2
+        osc = np.array([[2, 0, 0], [0, 2, -1], [0, -1, 0]])  # x^2 + y^2 - y = 0: circle of curvature at the vertex (3-fold contact)
+        hyp = np.array([[2, 0, 0], [0, int(rng.integers(2, 6)) * 2, -1], [0, -1, 0]])  # x^2 + k y^2 - y = 0: 4-fold contact at the origin
+        T = gen.unimodular(rng, 3) if i % 12 >= 6 else np.eye(3, dtype=int)
+        for A_, B_ in ((par, osc), (osc, par), (par, hyp), (hyp, par)):
+            try:
+                g.Conic(T.T @ A_ @ T).intersect(g.Conic(T.T @ B_ @ T))
             except Exception:
                 pass
     else:
